@@ -46,6 +46,18 @@ func (x *Exec) gridTargets() []gridTarget {
 		}
 	}
 	x.ghits = make([]int, len(x.gtargets))
+	if len(x.Cfg.GridArity) > 0 {
+		// top-up runs: the targets of the given arities first (the others count as exercised a thousand times)
+		for i, t := range x.gtargets {
+			focus := false
+			for _, a := range x.Cfg.GridArity {
+				focus = focus || a == len(t.tup)
+			}
+			if !focus {
+				x.ghits[i] = 1000
+			}
+		}
+	}
 	return x.gtargets
 }
 
